@@ -674,12 +674,13 @@ class Progress(JupyterMixin, RenderHook):
                 if self.auto_refresh and self._refresh_thread is not None:
                     self._refresh_thread.stop()
                 self.refresh()
-                if self.console.is_terminal:
-                    self.console.line()
             finally:
-                self.console.show_cursor(True)
+                # text pending in a redirected stream is flushed here, while the hook can still reposition the frame
                 self._disable_redirect_io()
                 self.console.pop_render_hook()
+                if self.console.is_terminal:
+                    self.console.line()
+                self.console.show_cursor(True)
         if self._refresh_thread is not None:
             self._refresh_thread.join()
             self._refresh_thread = None
